@@ -32,6 +32,10 @@ PROPS = {
              "Seeded search over histories of expel-operation pool calls on a real TempPool over goleveldb: set, traverse, lookup, remove by height, remove by fact, restart, and sweeps over every height and node; each answer is compared for exact set equality with an interval model.",
              "trusted: the interval model in harness/storeh/c23.go",
              SIM + "; reference-model comparison after every operation"),
+    "C25": P("storeh",
+             "Seeded search over histories of prefix-storage calls by 2-4 tenants with adversarial prefixes on one real leveldb Storage over the simulated disk, including injected write errors inside batches, closing a tenant, and clean restarts; after every step the whole raw storage is compared with a sorted-map model. A second population runs tenants concurrently under the seeded scheduler and compares each tenant's view with its own model.",
+             "trusted: the sorted-map model; goleveldb runs as shipped over simdisk",
+             SIM + "; reference-model comparison after every step, fault injection on the simulated disk"),
 }
 
 NOT_APPLICABLE = {
